@@ -241,7 +241,10 @@ def validate_traces(ctx, cases, known, label="trace"):
         with open(p, "w") as f:
             for cid, lines in rest:
                 for n, ln in enumerate(lines):
-                    f.write(json.dumps(ln) + "\n")
+                    try:
+                        f.write(json.dumps(ln) + "\n")
+                    except TypeError as e:
+                        raise core.Infra("trace line of case %s is not JSON: %s: %r" % (cid, e, ln))
                     index.append((cid, n))
         ok, hwm, r = ctx.trace_validate("trace/Trace_OpenAPIOps", "trace/Trace_OpenAPIOps.cfg", p, consts={"Deviations": tla_set(known)},
                                         label="%s-%d" % (label, rounds), timeout=1200)
